@@ -47,6 +47,12 @@ CHECKS = {
  "C02": dict(cat="exploration", tech="per-packet wire oracle over enumerated and sampled QoS 1/2 scripts at synctest quiescence (acks on the publisher's wire, hand-overs on a QoS 2 subscriber's wire)",
    text="All scripts up to length 5 over a 6-token alphabet and thousands of longer sampled ones; after every packet the exact acks and hand-overs are compared with the QoS 2 receiver state machine, incl. DUPs with different content and ring-wrapping filler.",
    note="broker role; client role via scripted peer (see DESIGN)", ref="3/C02"),
+ "C12": dict(cat="exploration", tech="event-log oracle over client-API completions vs a scripted TCP peer (global sequence stamps), yield-hook forced ack-before-register interleaving, wire-id monitor on a raw subscriber",
+   text="Completion callbacks and peer acks are stamped from one counter; exactly-once, not-before-ack and completed-by-barrier are checked for generated ack orders; the adverse interleaving is forced deterministically through the verif yield point and the proc.handled event; forwarded packet identifiers in flight are checked on the subscriber's wire.",
+   note="real TCP/real time with a protocol barrier; one session at a time per child process", ref="3/C12"),
+ "C20": dict(cat="exploration", tech="scripted-peer monitor of Client.Connect results and callback dispatch; goroutine-snapshot leak check",
+   text="27 CONNACK answers and hundreds of generated subscribe/unsubscribe/inbound-publish sessions; per-request callback invocation counts are compared with the MQTT matcher after a protocol barrier; goroutine snapshots show no library frame after failed Connect / Disconnect.",
+   note="real TCP on 127.0.0.1; leak check by stack frames under the library import path", ref="3/C20"),
 }
 PENDING = {}
 ALL = ["C%02d" % i for i in range(1, 21)]
